@@ -233,7 +233,9 @@ def rebin_case(draw, tier):
     depth = draw(st.sampled_from([0, 0, 1, 3]))
     shape = (nr * f, nc * f) if depth == 0 else (depth, nr * f, nc * f)
     return {"factor": f, "img": draw(gen.real_array(shape, -100, 100, dense_prob=0.8)),
-            "ints": draw(st.booleans()), "layout": draw(gen.layouts())}
+            "ints": draw(st.booleans()), "layout": draw(gen.layouts()),
+            # narrow storage types (detector frames, masks): the same numbers, block sums beyond the type's own range
+            "narrow": draw(st.sampled_from([None, None, "uint8", "int16", "uint16", "bool", "int8", "float32"]))}
 
 
 @hyp("C20", "rebin", lambda tier: rebin_case(tier), "rebin vs explicit block sums (2-D and cubes)",
@@ -244,17 +246,27 @@ def rebin(case, ctx):
     ctx.tag("factor_type:" + type(f_arg).__name__)
     if case["ints"]:
         img = np.round(img).astype(int)
+    nar = case.get("narrow")
+    if nar == "bool":
+        img = np.abs(img) > 30
+    elif nar in ("uint8", "uint16"):
+        img = (np.abs(np.round(img)) * (2 if nar == "uint8" else 600)).astype(nar)       # up to 200 / 60000 per sample
+    elif nar in ("int8", "int16"):
+        img = (np.round(img) * (1 if nar == "int8" else 300)).astype(nar)
+    elif nar == "float32":
+        img = np.round(img).astype(np.float32)
+    ctx.tag("dtype:" + str(img.dtype))
     img = gen.relayout(img, case.get("layout"))
     ctx.tag(f"factor:{f}", "cube" if img.ndim == 3 else "2d", "int" if case["ints"] else "float", "layout:" + str(case.get("layout")))
     ctx.nontrivial_if(f >= 2)
     with lentil_call("C20.rebin", "rebin"):
         out = lentil.rebin(img, f_arg)
     planes = img[None] if img.ndim == 2 else img
-    exp = np.zeros((planes.shape[0], planes.shape[1] // f, planes.shape[2] // f), dtype=img.dtype)
+    exp = np.zeros((planes.shape[0], planes.shape[1] // f, planes.shape[2] // f), dtype=float if nar else img.dtype)
     for d in range(planes.shape[0]):
         for i in range(exp.shape[1]):
             for j in range(exp.shape[2]):
-                exp[d, i, j] = planes[d, i * f:(i + 1) * f, j * f:(j + 1) * f].sum()
+                exp[d, i, j] = planes[d, i * f:(i + 1) * f, j * f:(j + 1) * f].astype(float if nar else img.dtype).sum()
     exp = exp[0] if img.ndim == 2 else exp
     scale = float(np.abs(planes).sum()) + 1.0
     if out.shape != exp.shape or float(np.max(np.abs(out - exp))) > 1e-12 * scale:
